@@ -124,6 +124,11 @@ type nv struct {
 }
 
 func runAttCase(want string) func(ci interface{}, rec *pbt.Rec) *pbt.Failure {
+	return runAttCaseObs(want, nil)
+}
+
+// runAttCaseObs additionally calls obs after every EndBlock and every claim (C06 reuses these histories).
+func runAttCaseObs(want string, obs func(h *sim.Hub, what string)) func(ci interface{}, rec *pbt.Rec) *pbt.Failure {
 	return func(ci interface{}, rec *pbt.Rec) *pbt.Failure {
 		c := ci.(*AttCase)
 		a := &firstFail{want: want}
@@ -156,6 +161,9 @@ func runAttCase(want string) func(ci interface{}, rec *pbt.Rec) *pbt.Failure {
 			if err := h.End(); err != nil {
 				a.fail("C05", "blocker", "%v", err)
 				return
+			}
+			if obs != nil {
+				obs(h, "end")
 			}
 			ctx := h.Ctx()
 			total := h.Staking.TotalPower()
@@ -341,6 +349,9 @@ func runAttCase(want string) func(ci interface{}, rec *pbt.Rec) *pbt.Failure {
 					before = h.StateHash()
 				}
 				r := h.Deliver(&mtypes.MsgSubmitExternalEvent{Event: ev, Signer: signer.String(), ChainId: ch})
+				if obs != nil {
+					obs(h, fmt.Sprintf("claim-err=%v", r.Err != nil))
+				}
 				if r.Panicked {
 					a.fail("C05", "handler-panic", "%v", r.Err)
 					break
